@@ -2,6 +2,7 @@
 #include <stdio.h>
 #include <gmssl/x509.h>
 #include <gmssl/x509_alg.h>
+#include <gmssl/x509_ext.h>
 #include <gmssl/x509_req.h>
 #include <gmssl/x509_crl.h>
 #include "vh.h"
@@ -78,6 +79,30 @@ static void blk_unique_ids(void) {
 		if (a == 2 && b == 3) bitflips("cert", cert, cl, &CK[1], 0, 1);
 		vh_sample("{\"block\":\"unique-ids\",\"issuer_uid_len\":%zu,\"subject_uid_len\":%zu,\"exts\":%d,\"certlen\":%zu}", UL[a], UL[b], ex, cl); }
 }
+/* GeneralNames: every one of the nine choices written by the library is read back by the library as the same choice with the same
+   content, alone and in a list of all nine; subjectAltName carrying the list survives issuing (extension found again, names read back) */
+static void blk_general_names(void) {
+	if (!vh_block_begin("general-names")) return; static const char *CN[9] = { "otherName", "rfc822Name", "dNSName", "x400Address", "directoryName", "ediPartyName", "uniformResourceIdentifier", "iPAddress", "registeredID" };
+	static const uint32_t oidn[] = { 1, 2, 156, 10197, 6, 1, 4, 2, 1 }; uint8_t val[] = { 0x0c, 0x03, 'a', 'b', 'c' }, x4[] = { 0x30, 0x03, 0x02, 0x01, 0x05 }, ip[4] = { 127, 0, 0, 1 };
+	for (int only = -1; only < 9; only++) { if (!vh_next()) continue; uint8_t gn[1024]; size_t gl = 0; int want[9], nw = 0, r = 1;
+		for (int c = 0; c < 9 && r == 1; c++) { if (only >= 0 && c != only) continue; want[nw++] = c; switch (c) {
+			case 0: r = x509_general_names_add_other_name(gn, &gl, sizeof gn, oidn, 9, val, sizeof val); break; case 1: r = x509_general_names_add_general_name(gn, &gl, sizeof gn, X509_gn_rfc822_name, (const uint8_t *)"a@b.cn", 6); break;
+			case 2: r = x509_general_names_add_general_name(gn, &gl, sizeof gn, X509_gn_dns_name, (const uint8_t *)"www.b.cn", 8); break; case 3: r = x509_general_names_add_general_name(gn, &gl, sizeof gn, X509_gn_x400_address, x4, sizeof x4); break;
+			case 4: r = x509_general_names_add_general_name(gn, &gl, sizeof gn, X509_gn_directory_name, NAME_S, NSL); break; case 5: r = x509_general_names_add_edi_party_name(gn, &gl, sizeof gn, ASN1_TAG_PrintableString, (const uint8_t *)"assigner", 8, ASN1_TAG_UTF8String, (const uint8_t *)"party", 5); break;
+			case 6: r = x509_general_names_add_general_name(gn, &gl, sizeof gn, X509_gn_uniform_resource_identifier, (const uint8_t *)"http://b.cn/x", 13); break; case 7: r = x509_general_names_add_general_name(gn, &gl, sizeof gn, X509_gn_ip_address, ip, 4); break;
+			default: r = x509_general_names_add_registered_id(gn, &gl, sizeof gn, oidn, 9); break; } if (r != 1) { char key[96]; snprintf(key, sizeof key, "C15:general-names:cannot-write:%s", CN[c]); vh_viol(key, "\"ret\":%d", r); } }
+		vh_eval(vh_mix(only + 9001)); if (r != 1) continue;
+		/* read back, element by element */ const uint8_t *cp = gn; size_t l = gl; int got = 0, bad = 0; while (l && !bad) { int ch = -9; const uint8_t *d; size_t dl; int rr = x509_general_name_from_der(&ch, &d, &dl, &cp, &l); if (rr != 1 || got >= nw || ch != want[got]) { char key[128]; snprintf(key, sizeof key, "C15:general-names:own-output-not-read-back:%s", got < nw ? CN[want[got]] : "extra"); vh_viol(key, "\"ret\":%d,\"choice_read\":%d,\"list\":\"%s\"", rr, ch, vh_hex(gn, gl > 200 ? 200 : gl)); bad = 1; break; }
+			if (want[got] == 4 && (dl != NSL || memcmp(d, NAME_S, NSL))) vh_viol("C15:general-names:content-differs:directoryName", "\"len\":%zu", dl); if (want[got] == 2 && (dl != 8 || memcmp(d, "www.b.cn", 8))) vh_viol("C15:general-names:content-differs:dNSName", "\"len\":%zu", dl); if (want[got] == 7 && (dl != 4 || memcmp(d, ip, 4))) vh_viol("C15:general-names:content-differs:iPAddress", "\"len\":%zu", dl); got++; }
+		if (!bad && got != nw) vh_viol("C15:general-names:count-differs", "\"written\":%d,\"read\":%d", nw, got);
+		/* inside a certificate */ uint8_t exts[1400]; size_t el = 0; if (x509_exts_add_subject_alt_name(exts, &el, sizeof exts, X509_non_critical, gn, gl) != 1) { vh_viol("C15:general-names:subjectAltName-refused", "\"only\":%d", only); continue; }
+		static uint8_t cert[4096]; uint8_t *p = cert; size_t cl = 0; uint8_t serial[2] = { 0x31, (uint8_t)(only + 2) }; venv_reset(9100 + only); r = x509_cert_sign_to_der(X509_version_v3, serial, 2, OID_sm2sign_with_sm3, NAME_I, NIL, VENV_NOW - 1000, VENV_NOW + 100000, NAME_S, NSL, &CK[0], NULL, 0, NULL, 0, exts, el, &CK[1], IDS[0].p, IDS[0].n, &p, &cl);
+		if (r != 1) { vh_viol("C15:general-names:certificate-refused", "\"only\":%d", only); continue; } const uint8_t *ee; size_t eel; if (x509_cert_get_exts(cert, cl, &ee, &eel) != 1 || eel != el || memcmp(ee, exts, el)) vh_viol("C15:general-names:extensions-differ", "\"only\":%d", only);
+		int crit; const uint8_t *v; size_t vl; if (x509_exts_get_ext_by_oid(ee, eel, OID_ce_subject_alt_name, &crit, &v, &vl) != 1) vh_viol("C15:general-names:subjectAltName-not-found-again", "\"only\":%d", only);
+		else { const uint8_t *g2; size_t g2l; if (x509_general_names_from_der(&g2, &g2l, &v, &vl) != 1 || vl || g2l != gl || memcmp(g2, gn, gl)) vh_viol("C15:general-names:subjectAltName-value-differs", "\"only\":%d", only); }
+		if (x509_signed_verify(cert, cl, &CK[1], IDS[0].p, IDS[0].n) != 1) vh_viol("C15:general-names:certificate-does-not-verify", "\"only\":%d", only);
+		vh_sample("{\"block\":\"general-names\",\"choices\":\"%s\",\"names_len\":%zu}", only < 0 ? "all nine" : CN[only], gl); }
+}
 static void blk_reqs(void) {
 	if (!vh_block_begin("reqs")) return;
 	for (int sid = 0; sid < 4; sid++) for (int nm = 0; nm < 3; nm++) { if (!vh_next()) continue; uint8_t subj[256]; size_t sl = 0; x509_name_set(subj, &sl, sizeof subj, "CN", nm ? "Beijing" : NULL, NULL, nm == 2 ? "Org" : NULL, NULL, "req");
@@ -140,5 +165,5 @@ static void blk_names(void) {
 		if (ok && c.n) { ok = 0; why = "extra-rdn"; } if (!ok) { snprintf(key, sizeof key, "C15:names:%s", why); vh_viol(key, "\"kinds\":\"%d%d%d%d%d%d\",\"attribute\":%d,\"name\":\"%s\"", kind[0], kind[1], kind[2], kind[3], kind[4], kind[5], at, vh_hex(nm, nl > 120 ? 120 : nl)); continue; }
 		if ((mask % 7) == 0 || vh_thorough) { static uint8_t cert[2048]; uint8_t *p = cert; size_t cl = 0; uint8_t serial[2] = { 2, (uint8_t)mask }; venv_reset(7000 + mask); r = x509_cert_sign_to_der(X509_version_v3, serial, 2, OID_sm2sign_with_sm3, NAME_I, NIL, VENV_NOW - 1000, VENV_NOW + 100000, nm, nl, &CK[0], NULL, 0, NULL, 0, NULL, 0, &CK[1], SM2_DEFAULT_ID, 16, &p, &cl); const uint8_t *sub; size_t subl; if (r != 1 || x509_cert_get_subject(cert, cl, &sub, &subl) != 1 || subl != nl || memcmp(sub, nm, nl)) { vh_viol("C15:names:subject-not-returned-as-supplied", "\"kinds\":\"%d%d%d%d%d%d\",\"ret\":%d", kind[0], kind[1], kind[2], kind[3], kind[4], kind[5], r); } } }
 }
-static void body(void) { blk_certs(); blk_unique_ids(); blk_reqs(); blk_crls(); blk_ext_sizes(); blk_names(); }
+static void body(void) { blk_certs(); blk_unique_ids(); blk_general_names(); blk_reqs(); blk_crls(); blk_ext_sizes(); blk_names(); }
 int main(int argc, char **argv) { vh_init(argc, argv); if (!freopen("/dev/null", "w", stderr)) {} creds_init(); make_name(NAME_I, &NIL, "Issuer"); x509_name_set(NAME_S, &NSL, sizeof NAME_S, "CN", "Beijing", "Haidian", "PKU", "CS", "Subject"); vh_guarded("C15", body, 120); return vh_finish(); }
